@@ -33,6 +33,7 @@ class Untranslatable(Exception):
 
 
 NAT, BOOL, BYTES, CH, OPTCH, UNIT, U8, BD, DRAIN = "nat", "bool", "bytes", "ch", "optch", "unit", "u8", "bd", "drain"
+CHARS, STRS = "chars", "strs"      # what an iterator of `char` / of `&str` yields, as a list
 
 FUNCS = [
     # rust name, anchor, lean name, params [(rust name, type)], return type
@@ -53,9 +54,17 @@ FUNCS = [
     ("drain", IMPL, "str_drain", [("range", "range")], DRAIN),
     ("drop", "Drop for Drain<'a, 'bump>", "str_drain_drop", [("self.start", NAT), ("self.end", NAT)], UNIT),
     ("replace_range", IMPL, "str_replace_range", [("#ovf", "ovf"), ("range", "range"), ("replace_with", BYTES)], UNIT),
+    ("extend", "Extend<char> for String<'bump>", "str_extend_chars", [("iter", CHARS), ("#hint", "hint")], UNIT),
+    ("extend", "Extend<&'a str> for String<'bump>", "str_extend_strs", [("iter", STRS)], UNIT),
+    ("from_iter_in", IMPL, "str_from_iter_in", [("iter", CHARS)], UNIT),
+    ("from_str_in", IMPL, "str_from_str_in", [("s", BYTES)], UNIT),
+    ("add", "Add<&'a str> for String<'bump>", "str_add", [("other", BYTES)], UNIT),
+    ("add_assign", "AddAssign<&'a str> for String<'bump>", "str_add_assign", [("other", BYTES)], UNIT),
+    ("write_str", "fmt::Write for String<'bump>", "str_write_str", [("s", BYTES)], UNIT),
+    ("write_char", "fmt::Write for String<'bump>", "str_write_char", [("c", CH)], UNIT),
 ]
 LEAN_TY = {NAT: "Nat", BOOL: "Bool", BYTES: "Str.Bytes", CH: "(Char × Nat)", OPTCH: "(Option (Char × Nat))", UNIT: "Unit", U8: "UInt8",
-           DRAIN: "(Nat × Nat)"}
+           DRAIN: "(Nat × Nat)", CHARS: "(List Char)", STRS: "(List Str.Bytes)"}
 BY_NAME = {}
 
 
@@ -223,12 +232,16 @@ class T:
                 return self.X(args[0], env, kf)
             if f[0] != "path": raise Untranslatable("call")
             segs = f[1]
-            if segs[-2:] == ["ptr", "copy"] and len(args) == 3:
+            if segs[-2:] in (["ptr", "copy"], ["ptr", "copy_nonoverlapping"]) and len(args) == 3:
                 src, dst, n = args
+                if segs[-1] == "copy_nonoverlapping" and not (src[0] == "mcall" and src[2] == "as_ptr" and src[1][0] == "path"):
+                    raise Untranslatable("copy_nonoverlapping inside the buffer")
 
                 def off(p):      # self.vec.as_ptr().add(x)  ->  x ; bytes.as_ptr() -> ("ext", bytes)
                     if p[0] == "mcall" and p[2] == "add" and p[1][0] == "mcall" and p[1][2] in ("as_ptr", "as_mut_ptr"):
                         return ("buf", p[3][0])
+                    if p[0] == "mcall" and p[2] in ("as_ptr", "as_mut_ptr") and p[1][0] == "field" and p[1][2] == "vec":
+                        return ("buf", ("int", 0))
                     if p[0] == "mcall" and p[2] in ("as_ptr", "as_mut_ptr") and p[1][0] == "path":
                         return ("ext", p[1])
                     raise Untranslatable("pointer expression")
@@ -250,6 +263,12 @@ class T:
                 self.cleanup = saved
                 return out
             if segs[-1] == "from_utf8_unchecked" and len(args) == 1:
+                return self.X(args[0], env, k)
+            if segs == ["String", "new_in"] and len(args) == 1:
+                return f"let s : RsS.SB := (([] : Str.Bytes), 0);\n{k('self', 'self', env)}"
+            if segs == ["String", "with_capacity_in"] and len(args) == 2:
+                return self.X(args[0], env, lambda n, tn, e1: f"let s : RsS.SB := (([] : Str.Bytes), 0);\n" + self.bindc(f"RsS.reserve {n}", UNIT, e1, lambda r, tr, e2: k("self", "self", e2)))
+            if segs == ["Ok"] and len(args) == 1:
                 return self.X(args[0], env, k)
             if segs == ["Some"] and len(args) == 1:
                 return self.X(args[0], env, lambda t, ty, env_: k(f"(some {t})", OPTCH, env_))
@@ -306,7 +325,8 @@ class T:
                             # under the build profile `ovf` unless the source says otherwise) and the replacement in the gap
                             return self.bindc(f"RsS.vec_splice ovf {pa[0][0]} {pa[1][0]}", UNIT, e1, k, can_panic=True)
                         if name in BY_NAME:
-                            return self.bindc(f"Gen.Fn.{BY_NAME[name]} {' '.join(a for a, _ in pa)}", UNIT, e1, k, can_panic=True)
+                            return self.bindc(f"Gen.Fn.{BY_NAME[name]} {' '.join((a + '.1') if ta == CH else a for a, ta in pa)}", UNIT, e1, k, can_panic=True)
+                    if ty in (CHARS, STRS) and name == "into_iter" and not pa: return k(t, ty, e1)
                     if ty == CH and name == "len_utf8" and not pa: return k(f"{t}.2", NAT, e1)
                     if ty == CH and name == "encode_utf8": return k(f"(Str.encChar {t}.1)", BYTES, e1)
                     if ty == BYTES and name in ("as_bytes", "bytes") and not pa: return k(t, BYTES, e1)
@@ -319,6 +339,10 @@ class T:
             return self.X(e[1], env, lambda a, ta, e1: self.X(e[2], e1, lambda b, tb, e2: k((a, b), "rangeval", e2)))
         if kind == "while":
             return self.WHILE(e, env, k)
+        if kind == "foriter":
+            return self.FORLIST(e, env, k)
+        if kind == "tuple" and not e[1]:
+            return k("()", UNIT, env)
         raise Untranslatable(f"expression form {kind}")
 
     def WHILE(self, e, env, k):
@@ -342,6 +366,28 @@ class T:
                            + indent(f"(match {fuel} with\n| 0 => {self.bad('loop fuel exhausted')}\n| {fuel1} + 1 =>\n{inner})") + "\n")
         return f"(Gen.Fn.{name} ans panicAt {cap_args} (s.2 + 1) {' '.join(env[m][0] for m in muts)} s)"
 
+    def FORLIST(self, e, env, k):
+        """`for x in iter { … }` over what the iterator yields (a list): a function recursive on that list"""
+        _, pat, it, body = e
+        if pat[0] != "pid" or it[0] != "path" or it[1][0] not in env or env[it[1][0]][1] not in (CHARS, STRS):
+            raise Untranslatable("for over this value")
+        lst, lty = env[it[1][0]]
+        name = f"{self.lean}.loop"
+        x, rest = self.fresh("x"), self.fresh("rest")
+        envl = dict(env)
+        pre = ""
+        if lty == CHARS:
+            ch = self.fresh(pat[1])
+            pre = f"let {ch} := ({x}, (Str.encChar {x}).length);\n"
+            envl[pat[1]] = (ch, CH)
+        else:
+            envl[pat[1]] = (x, BYTES)
+        again = lambda t, ty, e2: f"(Gen.Fn.{name} {rest} s)"
+        inner = pre + (self.B(body, envl, again) if body[0] == "block" else self.X(body, envl, again))
+        self.lifted.append(f"def {name} : {LEAN_TY[lty]} → RsS.SB → RsS.SB × Outcome Unit\n  | [], s => (s, Outcome.ok ())\n  | {x} :: {rest}, s =>\n"
+                           + indent(inner, 2) + "\n")
+        return f"(RsS.bind (Gen.Fn.{name} {lst} s) fun s _ =>\n{k('()', UNIT, env)})"
+
     def B(self, blk, env, k):
         _, stmts, tail = blk
         outer = env
@@ -352,6 +398,11 @@ class T:
                     return k("()", UNIT, merge(outer, env_))
                 return self.X(tail, env_, lambda t, ty, e2: k(t, ty, merge(outer, e2)))
             st = stmts[i]
+            if st[0] == "let" and st[1][0] == "ptuple" and st[2][0] == "mcall" and st[2][2] == "size_hint" and "#hint" in env_ \
+                    and st[1][1][0][0] == "pid" and all(q[0] == "pwild" for q in st[1][1][1:]):
+                # `let (lower, _) = iterator.size_hint()`: the lower bound an iterator reports is a parameter
+                e2 = dict(env_); e2[st[1][1][0][1]] = env_["#hint"]
+                return go(i + 1, e2)
             if st[0] == "let" and st[1][0] == "pid" and st[2] is not None:
                 name = st[1][1]
                 if st[2][0] == "struct" and st[2][1][-1] == "SetLenOnDrop":
@@ -396,6 +447,8 @@ class T:
         for n, ty in params:
             if ty == "ovf":
                 env[n] = ("ovf", "ovf"); ps.append("(ovf : Bool)")
+            elif ty == "hint":
+                env[n] = ("hint", NAT); ps.append("(hint : Nat)")
             elif ty == "closure":
                 env[n] = (n, "closure"); ps.append("(ans : Nat → Bool) (panicAt : Option Nat)")
                 env[n + "__calls"] = ("calls_0", NAT); pre += "let calls_0 := 0;\n"
@@ -405,7 +458,7 @@ class T:
                 env[n] = (n, CH); ps.append(f"({n}0 : Char)"); pre += f"let {n} := ({n}0, (Str.encChar {n}0).length);\n"
             else:
                 ln = n.replace("self.", "self_")
-                if ln in ("at", "end", "from", "in", "then", "do"): ln += "_"
+                if ln in ("at", "end", "from", "in", "then", "do", "s"): ln += "_"
                 env[n] = (ln, ty); ps.append(f"({ln} : {LEAN_TY[ty]})")
 
         def kret(t, ty, env_):
